@@ -25,7 +25,7 @@ func init() {
 	fw.Register(&fw.Check{
 		ID: "C12",
 		Rule: "Each case: a seeded reflect.StructOf config type with flag-supported leaves (all integer widths, floats, complex, bool, string, duration, time.Time, net.IP, a harness TextUnmarshaler, []string, integer slices, string maps, sets, string->[]string maps, named scalars; nested/pointer/embedded structs; dials tags verbatim, source-specific tags on some leaves), a random template, and a random argument list (subset of flags, repeats of accumulating flags, any order, -x v / --x=v / bare bool forms), for both sources/flag and sources/pflag via NewSetWithArgs and for the default and a custom NameConfig. " +
-			"Oracles: every leaf has a flag whose name is computed from the generator's word lists and verbatim tags; the advertised defaults, fed back as --name=<DefValue> to a second set built from a zero template, must reproduce the template's values; Set.Value stacked over zero defaults must equal the reference layer of exactly the flags in argv (repeated slice flags concatenate, sets union, maps merge, string->[]string maps append per key); a value outside the leaf's range (narrowing probes for every width below the carrier type) must be an error. " +
+			"Oracles: every leaf has a flag whose name is computed from the generator's word lists and verbatim tags; the advertised defaults, fed back as --name=<DefValue> to a second set built from a zero template, must reproduce the template's values; Set.Value stacked over zero defaults must equal the reference layer of exactly the flags in argv (repeated slice flags concatenate, sets union, maps merge, string->[]string maps append per key; the occurrences of a repeated flag are disjoint pieces of the value or OVERLAP: a later occurrence repeats list elements, set members, map entries or map keys that an earlier occurrence already gave); a set's own Parse, when its owner calls it first, must accept the same well-formed argv; a value outside the leaf's range (narrowing probes for every width below the carrier type) must be an error. " +
 			"distinct_nontrivial = distinct (package, name config, type-shape, argv pattern) signatures with >=1 flag given and >=1 omitted.",
 		Assumptions: []string{
 			"named slice/map types get no flag (outside the statement: 'named scalars'); not generated",
@@ -33,8 +33,9 @@ func init() {
 		},
 		MinDistinct: map[string]int{"quick": 8000, "thorough": 1000000},
 		MinCounters: map[string]map[string]int64{
-			"quick":    {"flags_given_and_compared": 15000, "leaves_expected_unset": 15000, "default_roundtrips_checked": 3000, "out_of_range_probes_rejected": 300, "repeated_flag_accumulations": 1500},
-			"thorough": {"flags_given_and_compared": 600000},
+			"quick":    {"flags_given_and_compared": 15000, "leaves_expected_unset": 15000, "default_roundtrips_checked": 3000, "out_of_range_probes_rejected": 300, "repeated_flag_accumulations": 1500,
+				"later_occurrences_restating_earlier_ones": 500, "set_occurrences_repeating_a_member": 100},
+			"thorough": {"flags_given_and_compared": 600000, "later_occurrences_restating_earlier_ones": 50000, "set_occurrences_repeating_a_member": 10000},
 		},
 		Plan: func(tier string) fw.Plan {
 			if tier == "thorough" {
@@ -112,18 +113,32 @@ func flagName(pkgTag string, custom bool, lr *gen.LeafRef) string {
 	return strings.Join(parts, "-")
 }
 
-// splitForRepeats splits an accumulating value into 1-3 argument values and
-// returns the value the accumulation must produce.
-func splitForRepeats(r *fw.Rand, lf *gen.Leaf, v reflect.Value) ([]string, reflect.Value) {
+// splitForRepeats splits an accumulating value into 1-4 argument values and
+// returns the value the accumulation must produce, plus the name of the overlap
+// pattern if a later occurrence restates something an earlier one already gave
+// ("" if the occurrences are disjoint).
+func splitForRepeats(r *fw.Rand, lf *gen.Leaf, v reflect.Value) ([]string, reflect.Value, string) {
 	n := 1
 	switch lf.Type.Kind() {
 	case reflect.Slice:
-		if lf.Caps&gen.CapTextU != 0 || v.Len() < 2 {
-			return []string{lf.Text(v)}, v
+		if lf.Caps&gen.CapTextU != 0 {
+			return []string{lf.Text(v)}, v, ""
+		}
+		if v.Len() >= 1 && r.Chance(15) {
+			// a later occurrence repeats elements an earlier occurrence already appended: a list keeps both
+			k := r.Range(1, min(2, v.Len()))
+			if r.Chance(30) {
+				k = v.Len()
+			}
+			acc := reflect.AppendSlice(reflect.AppendSlice(reflect.MakeSlice(lf.Type, 0, v.Len()+k), v), v.Slice(0, k))
+			return []string{lf.Text(v), lf.Text(v.Slice(0, k))}, acc, "list-element-repeated-by-a-later-occurrence"
+		}
+		if v.Len() < 2 {
+			return []string{lf.Text(v)}, v, ""
 		}
 		n = r.Range(1, min(3, v.Len()))
 		if n == 1 {
-			return []string{lf.Text(v)}, v
+			return []string{lf.Text(v)}, v, ""
 		}
 		var out []string
 		per := (v.Len() + n - 1) / n
@@ -131,28 +146,77 @@ func splitForRepeats(r *fw.Rand, lf *gen.Leaf, v reflect.Value) ([]string, refle
 			e := min(s+per, v.Len())
 			out = append(out, lf.Text(v.Slice(s, e)))
 		}
-		return out, v
+		return out, v, ""
 	case reflect.Map:
 		keys := v.MapKeys()
-		if len(keys) < 2 || r.Bool() {
-			return []string{lf.Text(v)}, v
-		}
 		sort.Slice(keys, func(i, j int) bool { return keys[i].String() < keys[j].String() })
+		sub := func(ks ...reflect.Value) string {
+			m := reflect.MakeMap(lf.Type)
+			for _, k := range ks {
+				m.SetMapIndex(k, v.MapIndex(k))
+			}
+			return lf.Text(m)
+		}
+		if lf.Type.Elem().Kind() == reflect.Struct && len(keys) >= 1 && r.Chance(40) {
+			// a set: later occurrences name members that earlier occurrences already added; the result is the union
+			switch pat := r.Intn(3); {
+			case pat == 0 || len(keys) == 1:
+				return []string{lf.Text(v), lf.Text(v)}, v, "set-same-value-twice"
+			case pat == 1:
+				a := r.Range(1, len(keys))
+				b := r.Intn(a)
+				return []string{sub(keys[:a]...), sub(keys[b:]...)}, v, "set-occurrences-overlap"
+			}
+			var out []string
+			for _, k := range keys {
+				out = append(out, sub(k))
+			}
+			last := []reflect.Value{keys[r.Intn(len(keys)-1)]}
+			if r.Bool() {
+				last = append(last, keys[len(keys)-1])
+			}
+			return append(out, sub(last...)), v, "set-last-occurrence-repeats-an-earlier-member"
+		}
+		if lf.Type.Elem().Kind() == reflect.Slice && len(keys) >= 1 && r.Chance(35) {
+			// string -> []string: a later occurrence names a key again; its values are appended to the key's list
+			k0 := keys[r.Intn(len(keys))]
+			old := v.MapIndex(k0)
+			extra := reflect.MakeSlice(lf.Type.Elem(), 0, 2)
+			if old.Len() > 0 && r.Bool() {
+				extra = reflect.Append(extra, old.Index(0)) // the very value the key already holds
+			}
+			if extra.Len() == 0 || r.Bool() {
+				extra = reflect.Append(extra, reflect.ValueOf("later").Convert(lf.Type.Elem().Elem()))
+			}
+			acc := reflect.MakeMap(lf.Type)
+			for _, k := range keys {
+				acc.SetMapIndex(k, v.MapIndex(k))
+			}
+			acc.SetMapIndex(k0, reflect.AppendSlice(reflect.AppendSlice(reflect.MakeSlice(lf.Type.Elem(), 0, old.Len()+extra.Len()), old), extra))
+			second := reflect.MakeMap(lf.Type)
+			second.SetMapIndex(k0, extra)
+			return []string{lf.Text(v), lf.Text(second)}, acc, "list-map-key-named-again-by-a-later-occurrence"
+		}
+		if len(keys) < 2 || r.Bool() {
+			return []string{lf.Text(v)}, v, ""
+		}
 		if lf.Type.Elem().Kind() == reflect.String && r.Chance(40) {
+			if r.Chance(30) {
+				// a later occurrence restates an entry exactly as an earlier one gave it
+				return []string{lf.Text(v), sub(keys[r.Intn(len(keys))])}, v, "map-entry-restated-by-a-later-occurrence"
+			}
 			// an early occurrence gives one key an older value; a later, larger occurrence restates it: the later one wins
 			first := reflect.MakeMap(lf.Type)
 			first.SetMapIndex(keys[0], reflect.ValueOf("superseded").Convert(lf.Type.Elem()))
-			return []string{lf.Text(first), lf.Text(v)}, v
+			return []string{lf.Text(first), lf.Text(v)}, v, "map-entry-superseded-by-a-later-occurrence"
 		}
 		var out []string
 		for _, k := range keys {
-			m := reflect.MakeMap(lf.Type)
-			m.SetMapIndex(k, v.MapIndex(k))
-			out = append(out, lf.Text(m))
+			out = append(out, sub(k))
 		}
-		return out, v
+		return out, v, ""
 	}
-	return []string{lf.Text(v)}, v
+	return []string{lf.Text(v)}, v, ""
 }
 
 // narrowingProbe returns an out-of-range literal for leaves narrower than their flag's carrier type.
@@ -243,6 +307,8 @@ func runC12(w *fw.Worker) {
 		setPct := r.Range(15, 75)
 		var probe *gen.LeafRef
 		repeats := 0
+		occurrences, overlapOf := map[*gen.LeafRef]int{}, map[*gen.LeafRef]string{}
+		var overlaps []string // later occurrences restating what earlier ones gave (counted once the case was compared)
 		var pattern strings.Builder
 		for _, lr := range leaves {
 			lf := lr.Leaf().Leaf
@@ -264,7 +330,7 @@ func runC12(w *fw.Worker) {
 				}
 			}
 			v := lf.Gen(r, c.Next())
-			texts, acc := splitForRepeats(r, lf, v)
+			texts, acc, overlap := splitForRepeats(r, lf, v)
 			if k := lf.Type.Kind(); (k == reflect.Slice || k == reflect.Map) && lf.Caps&gen.CapTextU == 0 && r.Chance(10) {
 				// the flag is given with an empty value: the leaf becomes an empty (non-nil) collection, whatever the template holds
 				if k == reflect.Slice {
@@ -272,12 +338,12 @@ func runC12(w *fw.Worker) {
 				} else {
 					v = reflect.MakeMap(lf.Type)
 				}
-				texts, acc = []string{""}, v
+				texts, acc, overlap = []string{""}, v, ""
 				w.Count("flags_given_with_an_empty_value", 1)
 			}
 			if pk.name == "pflag" && lf.Name == "[]string" && v.Len() > 0 {
 				// pflag's own StringSlice flag reads CSV, not Go-quoted lists
-				texts = nil
+				texts, overlap = nil, ""
 				items := pflagCSVNorm(v.Interface().([]string))
 				acc = reflect.ValueOf(items)
 				k := r.Range(1, len(items))
@@ -294,6 +360,11 @@ func runC12(w *fw.Worker) {
 			layer.Vals[lr] = acc
 			if len(texts) > 1 {
 				repeats++
+			}
+			occurrences[lr] = len(texts)
+			if overlap != "" {
+				overlaps = append(overlaps, overlap)
+				overlapOf[lr] = overlap
 			}
 			pattern.WriteByte(byte('0' + len(texts)))
 			for _, t := range texts {
@@ -365,6 +436,25 @@ func runC12(w *fw.Worker) {
 				return
 			}
 		}
+		// errClass: which flag does a parse error name, and how was that flag given
+		errClass := func(e error) string {
+			class, best := "", ""
+			for n, lr := range names {
+				if len(n) > len(best) && (strings.Contains(e.Error(), "-"+n+":") || strings.Contains(e.Error(), "--"+n+"\"")) {
+					best = n
+					class = ":" + lr.Leaf().Leaf.Name
+					switch {
+					case overlapOf[lr] != "":
+						class += ":" + overlapOf[lr]
+					case occurrences[lr] > 1:
+						class += ":repeated-flag"
+					default:
+						class += ":single-occurrence"
+					}
+				}
+			}
+			return class
+		}
 		if probe == nil && r.Chance(25) {
 			// the program parses the FlagSet itself (as cobra or a main() with other flags would) before dials asks for
 			// the values: nothing may be parsed, or accumulated, a second time
@@ -375,9 +465,12 @@ func runC12(w *fw.Worker) {
 			case *stdflagsrc.Set:
 				perr = ps.Flags.Parse(argv)
 			}
-			if perr == nil {
-				w.Count("flagsets_parsed_by_their_owner_first", 1)
+			if perr != nil {
+				// every value in argv is well-formed (no probe): the set's own flags must accept it whoever calls Parse
+				w.Violation(i, "owner-parse-error-on-well-formed-argv:"+pk.name+errClass(perr), perr.Error(), witness())
+				return
 			}
+			w.Count("flagsets_parsed_by_their_owner_first", 1)
 		}
 		got, verr := src.Value(context.Background(), dials.NewType(ptrType))
 		if probe != nil {
@@ -389,7 +482,7 @@ func runC12(w *fw.Worker) {
 			return
 		}
 		if verr != nil {
-			w.Violation(i, "value-error-on-well-formed-argv:"+pk.name, verr.Error(), witness())
+			w.Violation(i, "value-error-on-well-formed-argv:"+pk.name+errClass(verr), verr.Error(), witness())
 			return
 		}
 		zero := reflect.New(spec.Type())
@@ -406,6 +499,13 @@ func runC12(w *fw.Worker) {
 		w.Count("flags_given_and_compared", int64(len(layer.Vals)))
 		w.Count("leaves_expected_unset", int64(len(leaves)-len(layer.Vals)))
 		w.Count("repeated_flag_accumulations", int64(repeats))
+		for _, ov := range overlaps {
+			w.Count("later_occurrences_restating_earlier_ones", 1)
+			if strings.HasPrefix(ov, "set-") {
+				w.Count("set_occurrences_repeating_a_member", 1)
+			}
+			w.SetAdd("overlap_patterns:"+pk.name, ov)
+		}
 		// advertised defaults denote the template's values
 		var args2 []string
 		for n, dv := range defvals {
